@@ -334,6 +334,10 @@ fn pie_main(args: &[String]) {
       if let Err(f) = run_violation(&prog, &h, expect, prop, ob) { emit(&f, format!("pie-case --violation {}", ob), format!("program {:?} history {:?}", prog, h)); found += 1; }
     }
   }
+  if only_index.is_none() || args.iter().any(|a| a == "--session-errors") {
+    ran += 1;
+    if let Err(f) = session_errors_accumulate() { emit(&f, "pie-case --session-errors --index 4000000000".to_string(), "one session, several builds, a failing checker in the first".to_string()); found += 1; }
+  }
   if only_index.is_none() || args.iter().any(|a| a == "--stampless") {
     ran += 1;
     if let Err(f) = stampless_checkers() { emit(&f, "pie-case --stampless --index 4000000000".to_string(), "checkers with a zero-sized stamp that decide on the current state alone".to_string()); found += 1; }
